@@ -167,6 +167,8 @@ func templateOf(e ast.Expr) string {
 
 var countedLoopRe = regexp.MustCompile(`\bfor\b([^;{]*);([^;{]*);`)
 
+var sprintfVerbRe = regexp.MustCompile(`%(\[\d+\])?[-+# 0]*[0-9]*(\.[0-9]+)?[a-zA-Z]`)
+
 func init() {
 	register(&Rule{ID: "C16.R7", Props: []string{"C16", "C03"}, Min: 1, Needs: NeedTool,
 		Doc: "emitted element loops snapshot their bound: no counted `for` header the generator prints (g.P arguments or string concatenations, literals joined) tests the shared scratch variable `length` in its condition — the element decoders emitted inside the body assign `length` again (nested vectors, maps, byte lists), so the bound must be copied into a loop-local first",
@@ -197,6 +199,14 @@ func init() {
 					ast.Inspect(fd.Body, func(n ast.Node) bool {
 						switch x := n.(type) {
 						case *ast.CallExpr:
+							// a loop head built with fmt.Sprintf: the format string is the template
+							if se, ok := x.Fun.(*ast.SelectorExpr); ok && se.Sel.Name == "Sprintf" && len(x.Args) > 0 {
+								if bl, ok := x.Args[0].(*ast.BasicLit); ok && bl.Kind == token.STRING {
+									if f, err := strconv.Unquote(bl.Value); err == nil {
+										check(fd.Name.Name, x.Pos(), sprintfVerbRe.ReplaceAllString(f, "\u00a7"))
+									}
+								}
+							}
 							if se, ok := x.Fun.(*ast.SelectorExpr); ok && se.Sel.Name == "P" {
 								var sb strings.Builder
 								for _, a := range x.Args {
